@@ -96,11 +96,16 @@ def defer_measurements(
     """
 
     circuit = transformer_primitives.unroll_circuit_op(circuit, deep=True, tags_to_check=None)
-    terminal_measurements = {op for _, op in find_terminal_measurements(circuit)}
+    terminal_measurements = set(find_terminal_measurements(circuit))
     measurement_qubits: dict[cirq.MeasurementKey, list[tuple[cirq.Qid, ...]]] = defaultdict(list)
 
-    def defer(op: cirq.Operation, _) -> cirq.OP_TREE:
-        if op in terminal_measurements:
+    def defer(op: cirq.Operation, moment_index) -> cirq.OP_TREE:
+        # A terminal measurement stays in place, unless an earlier measurement of the same key was
+        # deferred: the deferred records are appended at the end, so keeping this one in place
+        # would reverse the order of the records of that key.
+        if (moment_index, op) in terminal_measurements and not any(
+            measurement_qubits.get(key) for key in protocols.measurement_key_objs(op)
+        ):
             return op
         gate = op.gate
         if isinstance(gate, ops.MeasurementGate):
